@@ -13,7 +13,7 @@ H=$( (cd "$REPO" && git ls-files -s -- src include cmake CMakeLists.txt && git d
 B="$ROOT/b-$VARIANT-$H"
 if [ -f "$B/.ok" ]; then echo "$B"; exit 0; fi
 # evict older builds of this variant (disk is limited)
-ls -1dt "$ROOT"/b-$VARIANT-* 2>/dev/null | tail -n +6 | while read d; do [ "$d" != "$B" ] && rm -rf "$d"; done
+ls -1dt "$ROOT"/b-$VARIANT-* 2>/dev/null | tail -n +25 | while read d; do [ "$d" != "$B" ] && rm -rf "$d"; done
 rm -rf "$B"; mkdir -p "$B"
 if [ "$VARIANT" = asan ]; then
   CF="-O1 -g -fno-omit-frame-pointer -fsanitize=address,undefined -fno-sanitize-recover=all -fno-sanitize=nonnull-attribute -DNNG_VERIF"
